@@ -6,27 +6,35 @@ import FeatherModel.Model.Mappings
 (`TinyLine`, `WithMoreIdentIter`), `quill/src/tree/mappings.rs` (`add_child`), name checks of
 `duke/src/tree/mod.rs` (`mod names`).
 
-Text is a list of code points. The model mirrors the code *as it is*, including:
-* `unescape` turns every two-character sequence backslash,`n` into a line feed, also where `escape` did not produce it;
-* the top-level comment is written at indentation 1, which `read` then rejects;
-* cells are written verbatim (TAB / LF / CR inside a name break the format);
-* a name that is not valid UTF-8 (lone surrogate) makes `write` **panic**: `Display` of the name newtypes returns `fmt::Error`
-  and `std::io::Write::write_fmt` panics when the formatter fails although the stream did not (rustc 1.95); `write` has no
-  other failure (the sink is a `Vec`). Descriptors are written lossily (U+FFFD).
+Text is a list of code points. The model mirrors the code *as it is* (after the fixes a79b1fd, 4f3eba6), including:
+* comments are escaped (`\\`, `\n`, `\r`, `\t`) and `unescape` keeps a backslash that starts no escape sequence;
+* `write` refuses (clean `Err`, `write? = none`) a namespace, name or descriptor that contains TAB / LF / CR or is not
+  valid UTF-8 (lone surrogate) - function `cell` of `tiny_v2.rs`;
+* the top-level comment is still written at indentation 1, which `read` then rejects (open finding).
 -/
 
 namespace Tiny
 
 /-! ## text primitives -/
 
-/-- `escape`: `s.replace('\n', "\\n")` -/
-def escape (s : JStr) : JStr := s.flatMap fun c => if c = 10 then [92, 110] else [c]
+/-- `escape`: `s.replace('\\', "\\\\").replace('\n', "\\n").replace('\r', "\\r").replace('\t', "\\t")`. The four replacements act
+on different characters and none produces a character a later one looks for (the backslashes produced by the later ones
+come after the backslash replacement), so the chain is this simultaneous substitution. -/
+def escape (s : JStr) : JStr := s.flatMap fun c =>
+  if c = 92 then [92, 92] else if c = 10 then [92, 110] else if c = 13 then [92, 114] else if c = 9 then [92, 116] else [c]
 
-/-- `unescape`: `s.replace("\\n", "\n")` (left to right, non-overlapping) -/
+/-- `unescape`: left to right; backslash followed by `\`, `n`, `r`, `t` is one character, any other backslash stays -/
 def unescape : JStr → JStr
   | [] => []
   | [c] => [c]
-  | a :: b :: rest => if a = 92 ∧ b = 110 then 10 :: unescape rest else a :: unescape (b :: rest)
+  | a :: b :: rest =>
+    if a = 92 then
+      if b = 92 then 92 :: unescape rest
+      else if b = 110 then 10 :: unescape rest
+      else if b = 114 then 13 :: unescape rest
+      else if b = 116 then 9 :: unescape rest
+      else 92 :: unescape (b :: rest)
+    else a :: unescape (b :: rest)
 
 /-- `str::split(sep)`: always at least one piece -/
 def splitOn (sep : Nat) : List Nat → List (List Nat)
@@ -153,9 +161,6 @@ def sortBy {α : Type} (le : α → α → Bool) (l : List α) : List α := l.fo
 
 def isSurrogate (c : Nat) : Bool := decide (55296 ≤ c) && decide (c ≤ 57343)
 
-/-- `Display for JavaStr` (`as_str_lossy`): lone surrogates become U+FFFD -/
-def lossy (s : JStr) : JStr := s.map fun c => if isSurrogate c then 65533 else c
-
 /-- `write_names`: a TAB before every cell, absent names are empty cells -/
 def namesCells (names : Names) : List Nat := names.flatMap fun o => 9 :: o.getD []
 
@@ -167,10 +172,10 @@ def paramLines (p : Param) : List (List Nat) :=
   ([9, 9, 112, 9] ++ natDigits p.index ++ namesCells p.names) :: docLines 3 p.doc
 
 def fieldLines (f : Field) : List (List Nat) :=
-  ([9, 102, 9] ++ lossy f.desc ++ namesCells f.names) :: docLines 2 f.doc
+  ([9, 102, 9] ++ f.desc ++ namesCells f.names) :: docLines 2 f.doc
 
 def methodLines (m : Method) : List (List Nat) :=
-  ([9, 109, 9] ++ lossy m.desc ++ namesCells m.names) :: (docLines 2 m.doc ++
+  ([9, 109, 9] ++ m.desc ++ namesCells m.names) :: (docLines 2 m.doc ++
     (sortBy paramLe m.params.values).flatMap paramLines)
 
 def classLines (c : Class) : List (List Nat) :=
@@ -183,22 +188,25 @@ def headerLine (ns : List JStr) : List Nat := [116, 105, 110, 121, 9, 50, 9, 48]
 def writeLines (m : Mappings) : List (List Nat) :=
   headerLine m.ns :: (docLines 1 m.doc ++ (sortBy classLe m.classes.values).flatMap classLines)
 
-/-- the text `write` produces when every name can be displayed -/
+/-- the text `write` produces when it does not refuse a cell -/
 def write (m : Mappings) : List Nat := (writeLines m).flatMap (· ++ [10])
 
-def namesDisplayable (names : Names) : Bool :=
+/-- function `cell`: valid UTF-8 (no lone surrogate) and none of TAB, LF, CR -/
+def cellOk (s : JStr) : Bool := s.all fun c => c != 9 && c != 10 && c != 13 && !isSurrogate c
+
+def namesWritable (names : Names) : Bool :=
   names.all fun o => match o with
     | none => true
-    | some s => !s.any isSurrogate
+    | some s => cellOk s
 
-/-- `Display` of the name newtypes fails on names that are not UTF-8 -/
-def displayable (m : Mappings) : Bool :=
-  m.classes.all fun (_, c) => namesDisplayable c.names &&
-    c.fields.all (fun (_, f) => namesDisplayable f.names) &&
-    c.methods.all (fun (_, me) => namesDisplayable me.names && me.params.all (fun (_, p) => namesDisplayable p.names))
+/-- every namespace, present name and descriptor passes `cell` -/
+def writeOk (m : Mappings) : Bool :=
+  m.ns.all cellOk && m.classes.all fun (_, c) => namesWritable c.names &&
+    c.fields.all (fun (_, f) => cellOk f.desc && namesWritable f.names) &&
+    c.methods.all (fun (_, me) => cellOk me.desc && namesWritable me.names && me.params.all (fun (_, p) => namesWritable p.names))
 
-/-- `write_vec`: `none` stands for the panic when a name cannot be displayed (there is no `Err` outcome) -/
-def write? (m : Mappings) : Option (List Nat) := if displayable m then some (write m) else none
+/-- `write_vec`: `none` is the `Err` of the first refused cell (nothing else can fail: the sink is a `Vec`) -/
+def write? (m : Mappings) : Option (List Nat) := if writeOk m then some (write m) else none
 
 /-! ## `read`
 The reader inserts every node into its parent's map when its line is met (`add_child`) and then keeps mutating that
@@ -381,33 +389,21 @@ def wfClass (c : Class) : Bool :=
 def wf (m : Mappings) : Bool :=
   keysNodup m.classes && m.classes.all fun (k, c) => firstName c.names == some k && wfClass c
 
-/-- a cell that survives `split('\t')` and `lines()` -/
-def cellOk (s : JStr) : Bool := s.all fun c => c != 9 && c != 10 && c != 13 && !isSurrogate c
-
 def namesOk (valid : JStr → Bool) (n : Nat) (names : Names) : Bool :=
   names.length == n && names.all fun o => match o with
     | none => true
     | some s => !s.isEmpty && cellOk s && valid s
 
-/-- no backslash directly followed by `n` -/
-def noBsN : List Nat → Bool
-  | a :: b :: r => !(a == 92 && b == 110) && noBsN (b :: r)
-  | _ => true
-
-/-- no TAB, no trailing CR, no backslash directly followed by `n`, no surrogates -/
-def docOk : Option JStr → Bool
-  | none => true
-  | some d => (d.all fun c => c != 9 && !isSurrogate c) && d.getLast? != some 13 && noBsN d
-
-def paramOk (n : Nat) (p : Param) : Bool := decide (p.index < USIZE_LIMIT) && namesOk validUnq n p.names && docOk p.doc
-def fieldOk (n : Nat) (f : Field) : Bool := cellOk f.desc && namesOk validUnq n f.names && docOk f.doc
+def paramOk (n : Nat) (p : Param) : Bool := decide (p.index < USIZE_LIMIT) && namesOk validUnq n p.names
+def fieldOk (n : Nat) (f : Field) : Bool := cellOk f.desc && namesOk validUnq n f.names
 def methodOk (n : Nat) (m : Method) : Bool :=
-  cellOk m.desc && namesOk validMethod n m.names && docOk m.doc && m.params.all fun (_, p) => paramOk n p
+  cellOk m.desc && namesOk validMethod n m.names && m.params.all fun (_, p) => paramOk n p
 def classOk (n : Nat) (c : Class) : Bool :=
-  namesOk validClass n c.names && docOk c.doc && (c.fields.all fun (_, f) => fieldOk n f) &&
-    c.methods.all fun (_, m) => methodOk n m
+  namesOk validClass n c.names && (c.fields.all fun (_, f) => fieldOk n f) && c.methods.all fun (_, m) => methodOk n m
 
-/-- the proved domain of the round trip -/
+/-- the proved domain of the round trip and of the fixed point: what `write` accepts (`cellOk`), names valid for their
+newtype and present in the first namespace where they are keys (`wf`), no comment on the mapping set itself. Comments of
+classes, fields, methods and parameters are arbitrary. -/
 def writable (n : Nat) (m : Mappings) : Bool :=
   decide (2 ≤ n) && m.ns.length == n && (m.ns.all fun s => !s.isEmpty && cellOk s) && m.doc.isNone &&
     wf m && m.classes.all fun (_, c) => classOk n c
@@ -522,36 +518,5 @@ def dupParamAt (ls : List TLine) (m i j : Nat) : Bool :=
 def dupAt (ls : List TLine) (m i j : Nat) : Bool :=
   dupClassAt ls i j || dupMemberAt F_ ls i j || dupMemberAt M_ ls i j || dupParamAt ls m i j
 
-
-/-! ### the wider domain of the fixed point: comments may contain backslash-`n` (they come back changed, but `write` of the
-changed set is the same text) -/
-
-/-- `docOk` without the backslash-`n` condition -/
-def docOkE : Option JStr → Bool
-  | none => true
-  | some d => (d.all fun c => c != 9 && !isSurrogate c) && d.getLast? != some 13
-
-def paramOkE (n : Nat) (p : Param) : Bool := decide (p.index < USIZE_LIMIT) && namesOk validUnq n p.names && docOkE p.doc
-def fieldOkE (n : Nat) (f : Field) : Bool := cellOk f.desc && namesOk validUnq n f.names && docOkE f.doc
-def methodOkE (n : Nat) (m : Method) : Bool :=
-  cellOk m.desc && namesOk validMethod n m.names && docOkE m.doc && m.params.all fun (_, p) => paramOkE n p
-def classOkE (n : Nat) (c : Class) : Bool :=
-  namesOk validClass n c.names && docOkE c.doc && (c.fields.all fun (_, f) => fieldOkE n f) &&
-    c.methods.all fun (_, m) => methodOkE n m
-
-/-- the proved domain of the fixed point `write (read (write m)) = write m` -/
-def writableE (n : Nat) (m : Mappings) : Bool :=
-  decide (2 ≤ n) && m.ns.length == n && (m.ns.all fun s => !s.isEmpty && cellOk s) && m.doc.isNone &&
-    wf m && m.classes.all fun (_, c) => classOkE n c
-
-/-- a comment after one trip through the file -/
-def reDoc (d : JStr) : JStr := unescape (escape d)
-def reDocParam (p : Param) : Param := { p with doc := p.doc.map reDoc }
-def reDocField (f : Field) : Field := { f with doc := f.doc.map reDoc }
-def reDocMethod (m : Method) : Method := { m with doc := m.doc.map reDoc, params := AList.mapVals reDocParam m.params }
-def reDocClass (c : Class) : Class :=
-  { c with doc := c.doc.map reDoc, fields := AList.mapVals reDocField c.fields, methods := AList.mapVals reDocMethod c.methods }
-/-- the set with every comment replaced by what `read` makes of its written form -/
-def reDocM (m : Mappings) : Mappings := { m with classes := AList.mapVals reDocClass m.classes }
 
 end Tiny
